@@ -79,7 +79,7 @@ var_opt_union<T, A>& var_opt_union<T, A>::operator=(const var_opt_union& other) 
   std::swap(outer_tau_numer_, union_copy.outer_tau_numer_);
   std::swap(outer_tau_denom_, union_copy.outer_tau_denom_);
   std::swap(max_k_, union_copy.max_k_);
-  std::swap(allocator_, other.allocator_);
+  std::swap(allocator_, union_copy.allocator_);
   std::swap(gadget_, union_copy.gadget_);
   return *this;
 }
